@@ -19,7 +19,8 @@ TECHNIQUE = 'runtime contract on the loader vs an independently encoded matrix o
 RULE = ('every cell of the layout lattice version x kind x $BYTEORD x range-kind x offsets x '
         'end-convention x padding is visited (exhaustive over these dims) with random '
         'widths/values/shape; non-trivial = >=2 events and some value with a non-zero high byte '
-        '(or any float column); distinct = digest of the whole generated file')
+        '(or any float column); distinct = digest of the whole generated file'
+        ' Also: one open handle handed to the reader several times.')
 ASSUMPTIONS = ['rv.fcsgen implements the FCS 2.0/3.0/3.1 list-mode layout correctly (independent of FlowCal.io)',
                'ranges are integers exactly representable as floats']
 MIN_CHECKS = {'quick': 3000, 'thorough': 400000}
